@@ -200,10 +200,20 @@ public:
     }
     // parameter reference-ness (for effect analysis)
     json::Array pr;
+    const FunctionDecl *Pat = FD->getTemplateInstantiationPattern();
+    if (Pat && Pat->getNumParams() != FD->getNumParams()) Pat = nullptr;
+    unsigned pi = 0;
     for (auto *P : FD->parameters()) {
       QualType T = P->getType();
       std::string k = "val";
-      if (T->isRValueReferenceType()) k = "rref";
+      bool fwd = false;
+      if (Pat) {
+        QualType PT = Pat->getParamDecl(pi)->getType();
+        if (PT->isRValueReferenceType() && PT.getNonReferenceType()->getAs<TemplateTypeParmType>()) fwd = true;
+      }
+      pi++;
+      if (fwd) k = T.getNonReferenceType().isConstQualified() ? "cref" : "fwd";
+      else if (T->isRValueReferenceType()) k = "rref";
       else if (T->isReferenceType()) k = T.getNonReferenceType().isConstQualified() ? "cref" : "ref";
       else if (T->isPointerType()) k = T->getPointeeType().isConstQualified() ? "cptr" : "ptr";
       pr.push_back(k);
